@@ -596,3 +596,8 @@ def run(ctx):
 
     r = ctx.rule("R6i", "x86_64 gradient abs / min / max / compare: on every order type of the value lanes exactly one path is selected and returns the selected operand's value and partial derivatives whole (ties of min / max and the zero of abs: value lane only)", 4)
     ctx.guarded(r, PW86.check_piecewise, "grad_slice")
+    from .. import hashsem as HS
+
+    r = ctx.rule("R6j", "gradient rand / mix: the value lane of the native clauses (x86_64 and aarch64) is the hash term of fidget_core::rng", 4)
+    for arch in ("x86_64", "aarch64"):
+        ctx.guarded(r, HS.check_hash_terms, arch, "grad_slice")
